@@ -49,6 +49,7 @@ from common import Report, check_proofs, proof_coverage, Driver, rng, seed  # no
 PYTHON = "/venv/bin/python"
 PROOF_MODULES = ["PyTealV.Proofs.C11", "PyTealV.Proofs.C11Rename"]
 KEY_TIE = "C11-router-recompile-slot-id-collision"
+KEY_ORDER = "C11-version-order-slot-renaming"
 REQUIRED_THEOREMS = [
     "PyTealV.Proofs.C11Rename.assignWith_rename", "PyTealV.Proofs.C11Rename.assignSlots_rename",
     "PyTealV.Proofs.C11Rename.assignWith_tiebreak_irrelevant",
@@ -681,6 +682,11 @@ def make_abi_method(pt, desc, built):
                 tmp = _abi_cls(pt, cdesc["out"])()
                 stmts.append(callee(*cargs).store_into(tmp))
                 total = total + _abi_read(pt, cdesc["out"], tmp)
+            # an ABI value created AFTER the call (store_into may evaluate the callee's declaration on the spot: whatever that
+            # nested evaluation does to the evaluation context must be undone before this allocation)
+            post = pt.abi.Uint64()
+            stmts.append(post.set(total))
+            total = post.get() + pt.Int(0)
         if output is None:
             return pt.Seq(*stmts, pt.Log(pt.Itob(total)))
         if desc["out"] in ("u64",):
@@ -730,6 +736,31 @@ def abi_main(pt, built, which):
             stmts.append(m(*args).store_into(out))
             total = total + _abi_read(pt, d["out"], out)
     return pt.Seq(*stmts, pt.Return(total))
+
+
+def abi_main_classic(pt, built, which):
+    """main calls a CLASSIC subroutine (no evaluation at build time); that routine calls the ABI method through store_into and
+    allocates an ABI value afterwards"""
+    d, m = built[which[0]]
+
+    @pt.Subroutine(pt.TealType.uint64)
+    def outer(a):
+        stmts, args = [], []
+        for j, t in enumerate(d["args"]):
+            x, e = _abi_const(pt, t, j + 7)
+            stmts.append(e)
+            args.append(x)
+        total = a
+        if d["out"] is None:
+            stmts.append(m(*args))
+        else:
+            out = _abi_cls(pt, d["out"])()
+            stmts.append(m(*args).store_into(out))
+            total = total + _abi_read(pt, d["out"], out)
+        post = pt.abi.Uint64()
+        stmts.append(post.set(total))
+        return pt.Seq(*stmts, post.get())
+    return pt.Return(outer(pt.Int(5)))
 
 
 def gen_abi_descs(r, n, prefix="m"):
@@ -783,6 +814,21 @@ def gen_target(r, kind=None) -> dict:
         n = r.randrange(1, 4)
         t.update(descs=gen_abi_descs(r, n), which=[r.randrange(n) for _ in range(r.randrange(1, 3))],
                  version=r.choice([6, 7, 8, 9, 10]), other=r.choice([6, 8, 10]))
+    elif kind == "abi-chain":
+        # m_k calls m_{k-1} ... calls m_0 through store_into; main only touches the LAST one, so the callees' declarations are
+        # first evaluated inside their caller's evaluation; compiled with frame pointers, then without, then again with
+        n = r.randrange(2, 4)
+        descs = gen_abi_descs(r, n)
+        for i, dsc in enumerate(descs):
+            dsc["calls"] = i - 1 if i else None
+            if dsc["out"] is None and i < n - 1:
+                dsc["out"] = "u64"
+        t["kind"] = "abi"
+        if r.random() < 0.7:
+            t.update(descs=descs, which=[n - 1], version=r.choice([8, 9, 10]), other=r.choice([6, 7]), classic_outer=r.random() < 0.7)
+        else:
+            # the other order: frame pointers first, then the scratch convention (known finding KEY_ORDER when `classic_outer`)
+            t.update(descs=descs, which=[n - 1], version=r.choice([6, 7]), other=r.choice([8, 9, 10]), classic_outer=True)
     elif kind == "router":
         n = r.randrange(1, 4)
         va = r.choice([6, 6, 7, 8, 8, 10])
@@ -996,22 +1042,40 @@ def run_target(pt, t) -> dict:
                 out["other"] = outcome(lambda: pt.compileTeal(holder["ast"], mode, version=t["other"], assembleConstants=t["assemble"], **kw))
             out["c3"] = outcome(lambda: pt.compileTeal(holder["ast"], mode, version=t["version"], assembleConstants=t["assemble"], **kw))
         out["rebuild"] = outcome(lambda: pt.compileTeal(build(), mode, version=t["version"], assembleConstants=t["assemble"], **kw))
-        same.append(["c1", "c2", "c3", "rebuild"])
+
+        def other_first():
+            ast = build()
+            outcome(lambda: pt.compileTeal(ast, mode, version=t["other"], assembleConstants=t["assemble"]))
+            return pt.compileTeal(ast, mode, version=t["version"], assembleConstants=t["assemble"], **kw)
+        if t["frame_pointers"] is not True or t["other"] >= 8:
+            out["other-first"] = outcome(other_first)
+            same.append(["c1", "c2", "c3", "rebuild", "other-first"])
+        else:
+            same.append(["c1", "c2", "c3", "rebuild"])
     elif k == "abi":
         holder = {}
 
+        mk_main = abi_main_classic if t.get("classic_outer") else abi_main
+
         def c1():
             holder["built"] = build_abi_methods(pt, t["descs"])
-            holder["ast"] = abi_main(pt, holder["built"], t["which"])
+            holder["ast"] = mk_main(pt, holder["built"], t["which"])
             return pt.compileTeal(holder["ast"], pt.Mode.Application, version=t["version"])
         out["c1"] = outcome(c1)
         if "ast" in holder:
             out["c2"] = outcome(lambda: pt.compileTeal(holder["ast"], pt.Mode.Application, version=t["version"]))
             out["other"] = outcome(lambda: pt.compileTeal(holder["ast"], pt.Mode.Application, version=t["other"]))
             out["c3"] = outcome(lambda: pt.compileTeal(holder["ast"], pt.Mode.Application, version=t["version"]))
-        out["rebuild"] = outcome(lambda: pt.compileTeal(abi_main(pt, build_abi_methods(pt, t["descs"]), t["which"]),
+        out["rebuild"] = outcome(lambda: pt.compileTeal(mk_main(pt, build_abi_methods(pt, t["descs"]), t["which"]),
                                                         pt.Mode.Application, version=t["version"]))
-        same.append(["c1", "c2", "c3", "rebuild"])
+
+        def other_first():
+            # a brand new copy of the program compiled at the OTHER version first: the order of versions is history too
+            ast = mk_main(pt, build_abi_methods(pt, t["descs"]), t["which"])
+            outcome(lambda: pt.compileTeal(ast, pt.Mode.Application, version=t["other"]))
+            return pt.compileTeal(ast, pt.Mode.Application, version=t["version"])
+        out["other-first"] = outcome(other_first)
+        same.append(["c1", "c2", "c3", "rebuild", "other-first"])
     elif k == "router":
         def mk():
             built = build_abi_methods(pt, t["descs"])
@@ -1317,7 +1381,7 @@ def part_b(rep: Report, n_targets: int, hist_kinds: list[str], hashseeds: list[s
     """targets are processed in waves; a thorough run stops launching waves when its time budget is used up
     (the evidence reports the number of targets actually run)"""
     P = Predictor()
-    kinds_cycle = ["recipe", "abi", "router", "recspill", "recipe-dyn", "session", "router", "tmpl", "abi", "probe", "router", "recipe", "session", "recspill"]
+    kinds_cycle = ["recipe", "abi", "router", "recspill", "abi-chain", "recipe-dyn", "session", "router", "tmpl", "abi", "probe", "router", "recipe", "session", "recspill"]
     t_start = time.time()
     done = 0
     for w0 in range(0, n_targets, wave):
@@ -1399,7 +1463,15 @@ def _part_b_wave(rep: Report, P, targets: dict, hist_kinds, hashseeds, n_fresh_t
                     if a["sha"] == b["sha"]:
                         continue
                     stats["diffs_within_process"] = stats.get("diffs_within_process", 0) + 1
-                    if (g in pr["ties"] or have[0] in pr["ties"]) and a["csha"] == b["csha"] and a["st"] == b["st"] == "ok":
+                    if (t.get("classic_outer") and t.get("version", 9) < 8 <= t.get("other", 0) and "other-first" in (g, have[0])
+                            and a["csha"] == b["csha"] and a["st"] == b["st"] == "ok"):
+                        # known finding: ReturnedValue.store_into evaluates the callee's scratch-slot declaration where it is
+                        # first needed; after a frame-pointer compile that moment is another one, so the slot objects are created
+                        # in another order and get other numbers (the programs are equal up to a renaming of slots)
+                        stats["order_diffs_confirmed"] = stats.get("order_diffs_confirmed", 0) + 1
+                        record(rep, "order-within", f"compiling at version {t['other']} first changes the slot numbering of the version-{t['version']} "
+                                      f"program (target {ti}, {have[0]} vs {g}); equal up to a renaming of slots", dict(replay, label=g), key=KEY_ORDER)
+                    elif (g in pr["ties"] or have[0] in pr["ties"]) and a["csha"] == b["csha"] and a["st"] == b["st"] == "ok":
                         stats["tie_diffs_confirmed"] = stats.get("tie_diffs_confirmed", 0) + 1
                         record(rep, "tie-within", f"repeated Router.compile_program differs by a renaming of slot numbers (target {ti}, {have[0]} vs {g})",
                                       dict(replay, label=g), key=KEY_TIE)
